@@ -17,6 +17,12 @@ RULE = (
     "stream gets a bit-position sweep. distinct = blake2b(damaged stream, mode, handler); non-trivial = at least one "
     "frame damaged and at least one left intact"
 )
+RULE += (
+    ' Also: backends BytesIO / BufferedReader / pipe / makefile / scripted socket; exact and damaged'
+    ' repeats of earlier frames; frames with steered checksum bytes; raise-mode consumers via read(),'
+    ' next(reader) and one held iterator; user handlers of four kinds (function, bound method, partial,'
+    ' falsy callable container); runs of more than a thousand damaged frames in a row.'
+)
 ASSUMPTIONS = [
     "all frames of the stream are parseable when undamaged (payload >= natural length of their type)",
     "damage never touches the 3 header bytes (the property is stated for payload and checksum bytes)",
